@@ -75,6 +75,7 @@ type LoopS struct {
 	Pos     token.Pos
 	final   map[*Symbol]*Term
 	HeadEvents int // number of events in the header block
+	HeadExact  bool // the exit at the head is the only way out of the loop (its condition decides the trip count)
 	exitCellSnap []map[*Symbol]*Term
 }
 
